@@ -264,7 +264,9 @@ pub fn history(data: &[u8], known: &[&str]) -> Option<Found> {
             let mut ops = Vec::new();
             while ops.len() < 64 && !u.is_empty() {
                 let b = u.arbitrary::<u8>().ok()?;
-                if b % 8 == 0 {
+                if b % 16 == 9 {
+                    ops.push(c18::SOp::SelfMerge { times: if b & 0x80 != 0 { 55 } else { 2 } });
+                } else if b % 8 == 0 {
                     let k = (b as usize >> 3) % 5;
                     let mut vals = Vec::new();
                     for _ in 0..k {
@@ -282,7 +284,7 @@ pub fn history(data: &[u8], known: &[&str]) -> Option<Found> {
             if !crate::est::INGEST_TYPES.contains(&ty) {
                 return None;
             }
-            let paths: Vec<u8> = (0..6).map(|_| u.arbitrary::<u8>().unwrap_or(4) % 5).collect();
+            let paths: Vec<u8> = (0..6).map(|_| u.arbitrary::<u8>().unwrap_or(4) % 9).collect();
             let ncuts = (u.arbitrary::<u8>().ok()? % 5) as usize;
             let cut_bytes: Vec<u8> = (0..ncuts).map(|_| u.arbitrary::<u8>().unwrap_or(0)).collect();
             let mut vals = Vec::new();
@@ -310,8 +312,27 @@ pub fn history(data: &[u8], known: &[&str]) -> Option<Found> {
     }
 }
 
-/// signatures of the known findings (KNOWN_FINDINGS.txt) a campaign must tolerate in-target
-pub const KNOWN_SIGS: [&str; 2] = ["range:weighted-mean-merge:subnormal-products", "quantile:spread-overflow"];
+/// Signatures of the known findings a campaign must tolerate in-target (otherwise it
+/// would rediscover one crash forever): the `known:` lines of $VERIF_ROOT/KNOWN_FINDINGS.txt.
+pub fn known_sigs() -> &'static [&'static str] {
+    static K: std::sync::OnceLock<Vec<&'static str>> = std::sync::OnceLock::new();
+    K.get_or_init(|| {
+        let root = std::env::var("VERIF_ROOT").unwrap_or_else(|_| "/verif".into());
+        let mut v: Vec<&'static str> = Vec::new();
+        if let Ok(s) = std::fs::read_to_string(std::path::Path::new(&root).join("KNOWN_FINDINGS.txt")) {
+            for line in s.lines() {
+                if let Some(rest) = line.trim().strip_prefix("known:") {
+                    for tok in rest.split_whitespace() {
+                        if let Some(sig) = tok.strip_prefix("signature=") {
+                            v.push(Box::leak(sig.to_string().into_boxed_str()));
+                        }
+                    }
+                }
+            }
+        }
+        v
+    })
+}
 
 pub fn run_target(target: &str, data: &[u8], known: &[&str]) -> Option<Found> {
     match target {
